@@ -585,6 +585,12 @@ class Twin:
 
     def __init__(self, desc):
         self.b = Built(desc).build(sorted(desc['order']))
+        if any('simpeek' in KINDS[n['kind']].tags for n in desc['nodes']):
+            # a block of the design asks for the system's simulator from inside clock(): in the real system that only
+            # re-sorts an existing simulator; without one it would be constructed - and settle the netlist - in the
+            # middle of the twin's edge. The twin's own simulator exists for that reason only, the harness never steps it.
+            with seams.quiet():
+                self.b.hw.getSimulator()
         leaves = self.b.hw.allLeaves()
         self.props = [l for l in leaves if l.isPropagatable()]
         self.clks = [l for l in leaves if l.isClockable()]
@@ -664,6 +670,18 @@ def underscore_names(desc, rng):
     for n in desc['nodes']:
         n['grp'] = list(newpath[tuple(n['grp'])])
         inst[str(n['id'])] = take(tuple(n['grp']))
+    # two blocks of one class but of different shape whose paths coincide once joined by '_': <top>/zq/b and <top>/zq_b
+    by_kind = {}
+    for n in desc['nodes']:
+        by_kind.setdefault(n['kind'], []).append(n)
+    pairs = [(x, y) for l in by_kind.values() for x in l for y in l
+             if x['id'] < y['id'] and (x['ow'] != y['ow'] or len(x['ins']) != len(y['ins'])) and not x.get('guard') and not y.get('guard')]
+    if pairs and rng.random() < 0.5:
+        x, y = rng.choice(pairs)
+        x['grp'] = ['zq']
+        inst[str(x['id'])] = 'b'
+        y['grp'] = []
+        inst[str(y['id'])] = 'zq_b'
     desc['inst_names'] = inst
     gd = desc.get('group_driver')
     if gd:
